@@ -281,4 +281,248 @@ theorem rolling_shift_or_diff_eq (k : Kind) (op : RollOp) (hop : op = .shift ∨
   have := l2 j (by omega)
   simpa using this
 
+/-! ### sum / mean -/
+
+def NumOrNull (k : Kind) (v : Val) : Prop := isNull k v = false → ∃ x, v = .num x
+
+theorem sub_num (s : Int) (v : Val) (h : ∃ x, v = .num x) : Val.sub (.num s) v = .num (s - valInt v) := by
+  obtain ⟨x, rfl⟩ := h; rfl
+
+theorem add_num (s : Int) (v : Val) (h : ∃ x, v = .num x) : Val.add (.num s) v = .num (s + valInt v) := by
+  obtain ⟨x, rfl⟩ := h; rfl
+
+structure SumInv (k : Kind) (nullv : Val) (w : Nat) (t : Nat) (st : Rolling_sum_or_mean_loop2St) (m : Int → RS) : Prop where
+  hi : st.i = (t : Int) - 1
+  hun : ∀ j : Int, (t : Int) ≤ j → st.out' j = nullv
+  hnum : ∀ g c : Int, NumOrNull k (st.group_buffers g c)
+  hring : RingRel w st.group_buffers st.group_positions st.group_n_seen m
+  hsum : ∀ g : Int, 0 ≤ g → st.group_sums g = .num (m g).sum ∧ st.group_non_null g = (m g).nn
+
+theorem sum_step (k : Kind) (divf : Val → Int → Val) (op : RollOp) (hop : op = .sum ∨ op = .mean) (nullv : Val) (w : Nat)
+    (hw : 0 < w) (minp : Nat) (gk : Int → Int) (masked : Bool) (mk : Int → Bool) (ng ml gkl ol : Int) (t : Nat)
+    (st : Rolling_sum_or_mean_loop2St) (m : Int → RS) (r : CRow)
+    (hcode : gk (t : Int) = r.code) (hsel : (masked && !mk (t : Int)) = !r.sel)
+    (hv : NumOrNull k r.val) (h : SumInv k nullv w t st m) :
+    let st' := rolling_sum_or_mean_loop2_step k divf gkl gk w minp ml masked mk (decide (op = .mean)) masked ng ng ng w ng ng ol
+      st r.val
+    let m' := if r.code < 0 || !r.sel then m else upd m r.code (rollStep k op w (m r.code) r.val)
+    SumInv k nullv w (t + 1) st' m' ∧ (∀ j : Int, j < t → st'.out' j = st.out' j) ∧
+      st'.out' (t : Int) = (if r.code < 0 || !r.sel then nullv
+        else cellVal divf nullv (rollOut k op w minp (m r.code) (rollStep k op w (m r.code) r.val) r.val)) := by
+  obtain ⟨si, ss, sn, sb, sp, sc, so⟩ := st
+  obtain ⟨hi, hun, hnum, hring, hsum⟩ := h
+  simp only at hi hun hnum hring hsum
+  subst hi
+  intro st' m'
+  have e1 : (t : Int) - 1 + 1 = (t : Int) := by omega
+  have hstep : rollStep k op w = rstep k w := by funext s v; rcases hop with rfl | rfl <;> rfl
+  simp only [st', m', rolling_sum_or_mean_loop2_step, e1, normI_natCast, hcode, hsel, hstep]
+  by_cases hk : r.code < 0
+  · simp only [hk, decide_true, if_true, Bool.true_or]
+    exact ⟨⟨by simp, fun j hj => hun j (by omega), hnum, hring, hsum⟩, by first | trivial | (intro _ _; first | trivial | rfl),
+      hun _ (by omega)⟩
+  · have hk0 : 0 ≤ r.code := by omega
+    simp only [hk, decide_false, Bool.false_eq_true, if_false, Bool.false_or, normI_nonneg _ _ hk0]
+    by_cases hs : r.sel = true
+    · simp only [hs, Bool.not_true, Bool.false_eq_true, if_false]
+      obtain ⟨kb, kp, kpw, kn⟩ := hring _ hk0
+      obtain ⟨ksum, knn⟩ := hsum _ hk0
+      have hpos0 : (0 : Int) ≤ sp r.code := by omega
+      rw [normI_nonneg _ _ hpos0]
+      have hold : (m r.code).buf.getD (m r.code).pos (nullValue k) = sb r.code (sp r.code) := by
+        rw [kb, rowV_getD _ _ _ _ kpw, kp]
+      have hfull : (decide (sc r.code ≥ (w : Int))) = decide ((m r.code).nSeen ≥ w) := by
+        rw [← kn]; simp
+      have holdnum := hnum r.code (sp r.code)
+      simp only [hfull]
+      generalize hold' : sb r.code (sp r.code) = old at *
+      generalize hfl : decide ((m r.code).nSeen ≥ w) = full at *
+      have hnum' : ∀ g c : Int, NumOrNull k (aset2 sb r.code (sp r.code) r.val g c) := by
+        intro g c
+        simp only [aset2]
+        split
+        · exact hv
+        · exact hnum g c
+      have hring' : RingRel w (aset2 sb r.code (sp r.code) r.val)
+          (aset sp r.code (Int.fmod (sp r.code + 1) (w : Int)))
+          (if (!full) = true then aset sc r.code (sc r.code + 1) else sc)
+          (upd m r.code (rstep k w (m r.code) r.val)) := by
+        intro g hg
+        obtain ⟨gb, gp, gpw, gn⟩ := hring g hg
+        by_cases e : g = r.code
+        · subst e
+          simp only [upd, if_true, rstep, aset_apply]
+          refine ⟨?_, ?_, Nat.mod_lt _ hw, ?_⟩
+          · rw [gb, ← gp, rowV_aset2_same _ _ _ _ gpw]
+          · rw [← gp, fmod_succ_cast _ _ hw]
+          · rw [hfl]
+            cases full
+            · simp only [Bool.not_false, if_true, aset_apply, Bool.false_eq_true, if_false]; omega
+            · simp [gn]
+        · simp only [upd, e, if_false, aset_apply]
+          refine ⟨by rw [rowV_aset2_other _ _ _ _ _ _ e]; exact gb, gp, gpw, ?_⟩
+          cases full <;> simp [aset_apply, e, gn]
+      -- the model's new sum / count of the row's group
+      have hmsum : (rstep k w (m r.code) r.val).sum =
+          (if isNull k r.val then (if full && !isNull k old then (m r.code).sum - valInt old else (m r.code).sum)
+           else (if full && !isNull k old then (m r.code).sum - valInt old else (m r.code).sum) + valInt r.val) := by
+        simp only [rstep, hold, hfl]
+      have hmnn : (rstep k w (m r.code) r.val).nn =
+          (if isNull k r.val then (if full && !isNull k old then (m r.code).nn - 1 else (m r.code).nn)
+           else (if full && !isNull k old then (m r.code).nn - 1 else (m r.code).nn) + 1) := by
+        simp only [rstep, hold, hfl]
+      have hvnum : isNull k r.val = false → ∃ x, r.val = .num x := hv
+      cases full <;> cases hon : isNull k old <;> cases hvn : isNull k r.val <;>
+        simp only [hon, hvn, Bool.not_true, Bool.not_false, Bool.false_eq_true, if_false, if_true, Bool.and_true,
+          Bool.and_false, Bool.true_and, Bool.false_and] at hring' hmsum hmnn ⊢
+      all_goals
+        have hOn : isNull k old = false → ∃ x, old = .num x := holdnum
+        refine (fun hinv' => ⟨hinv', ?_, ?_⟩) ⟨by simp, ?_, hnum', hring', ?_⟩
+      -- cells before / after the row are untouched
+      all_goals try (
+        intro j hj
+        have hjt : ¬ j = (t : Int) := by omega
+        (repeat' split) <;> simp only [aset_apply, hjt, if_false] <;> first | rfl | exact hun j (by omega))
+      -- running sum and non-null count per group
+      all_goals try (
+        intro g hg
+        dsimp only
+        obtain ⟨gs, gn⟩ := hsum g hg
+        by_cases e : g = r.code
+        · subst e
+          simp only [upd, if_true, hmsum, hmnn, aset_apply, gs, gn]
+          have hO' : isNull k old = true ∨ ∃ x, old = .num x := by
+            cases h : isNull k old
+            · exact Or.inr (hOn h)
+            · exact Or.inl rfl
+          have hV' : isNull k r.val = true ∨ ∃ y, r.val = .num y := by
+            cases h : isNull k r.val
+            · exact Or.inr (hvnum h)
+            · exact Or.inl rfl
+          rcases hO' with ho | ⟨x, rfl⟩ <;> rcases hV' with hvv | ⟨y, hy⟩ <;>
+            (try rw [hy]) <;> simp_all [Val.add, Val.sub, valInt]
+        · simp only [upd, e, if_false, aset_apply]
+          exact ⟨gs, gn⟩)
+      -- the output cell of the row
+      all_goals try (
+        have h := hinv'.hsum r.code hk0
+        dsimp only at h
+        simp only [upd, if_true] at h
+        obtain ⟨h1, h2⟩ := h
+        simp only [h1, h2]
+        generalize rstep k w (m r.code) r.val = s'
+        have hu := hun (t : Int) (by omega)
+        rcases hop with rfl | rfl
+        · simp only [show decide (RollOp.sum = RollOp.mean) = false from by decide, Bool.false_eq_true, if_false, rollOut]
+          by_cases hge : s'.nn ≥ (minp : Int) <;> simp [hge, cellVal, aset_apply, hu]
+        · simp only [decide_true, if_true, rollOut]
+          by_cases hge : s'.nn ≥ (minp : Int) <;> by_cases hp : s'.nn > 0 <;> simp [hge, hp, cellVal, aset_apply, hu])
+    · have hs' : r.sel = false := by cases h' : r.sel <;> simp_all
+      simp only [hs', Bool.not_false, if_true]
+      exact ⟨⟨by simp, fun j hj => hun j (by omega), hnum, hring, hsum⟩, by first | trivial | (intro _ _; first | trivial | rfl),
+        hun _ (by omega)⟩
+
+theorem sum_loop (k : Kind) (divf : Val → Int → Val) (op : RollOp) (hop : op = .sum ∨ op = .mean) (nullv : Val) (w : Nat)
+    (hw : 0 < w) (minp : Nat) (gk : Int → Int) (masked : Bool) (mk : Int → Bool) (ng ml gkl ol : Int) :
+    ∀ (rest : List CRow) (t : Nat) (st : Rolling_sum_or_mean_loop2St) (m : Int → RS),
+      (∀ j (hj : j < rest.length), gk ((t + j : Nat) : Int) = rest[j].code ∧
+        (masked && !mk ((t + j : Nat) : Int)) = !rest[j].sel ∧ NumOrNull k rest[j].val) →
+      SumInv k nullv w t st m →
+      let fin := (rest.map (·.val)).foldl
+        (rolling_sum_or_mean_loop2_step k divf gkl gk w minp ml masked mk (decide (op = .mean)) masked ng ng ng w ng ng ol) st
+      (∀ j : Int, j < t → fin.out' j = st.out' j) ∧
+      (∀ j, j < rest.length → fin.out' ((t + j : Nat) : Int) = cellAt divf nullv (rollGo k op w minp m rest) j) := by
+  intro rest
+  induction rest with
+  | nil => intro t st m _ _; simp
+  | cons r rs ih =>
+    intro t st m harr hinv fin
+    have h0 := harr 0 (by simp)
+    simp only [Nat.add_zero, List.getElem_cons_zero] at h0
+    have hstep := sum_step k divf op hop nullv w hw minp gk masked mk ng ml gkl ol t st m r h0.1 h0.2.1 h0.2.2 hinv
+    obtain ⟨hinv', hold, hcell⟩ := hstep
+    have harr' : ∀ j (hj : j < rs.length), gk ((t + 1 + j : Nat) : Int) = rs[j].code ∧
+        (masked && !mk ((t + 1 + j : Nat) : Int)) = !rs[j].sel ∧ NumOrNull k rs[j].val := by
+      intro j hj
+      have := harr (j + 1) (by simp; omega)
+      have e : t + (j + 1) = t + 1 + j := by omega
+      simpa [e] using this
+    have hrec := ih (t + 1) _ _ harr' hinv'
+    obtain ⟨r1, r2⟩ := hrec
+    simp only [fin, List.map_cons, List.foldl_cons]
+    refine ⟨fun j hj => ?_, fun j hj => ?_⟩
+    · rw [r1 j (by omega)]; exact hold j hj
+    · cases j with
+      | zero =>
+        simp only [Nat.add_zero]
+        rw [r1 _ (by omega), hcell]
+        simp only [rollGo, cellAt]
+        by_cases hc : (decide (r.code < 0) || !r.sel) = true <;> simp [hc]
+      | succ j =>
+        have e : t + (j + 1) = t + 1 + j := by omega
+        rw [e, r2 j (by simpa using hj)]
+        simp only [rollGo, cellAt]
+        by_cases hc : (decide (r.code < 0) || !r.sel) = true <;> simp [hc]
+
+def su2of1 (s : Rolling_sum_or_mean_loop1St) : Rolling_sum_or_mean_loop2St :=
+  ⟨s.i, s.group_sums, s.group_non_null, s.group_buffers, s.group_positions, s.group_n_seen, s.out'⟩
+def su1of2 (s : Rolling_sum_or_mean_loop2St) : Rolling_sum_or_mean_loop1St :=
+  ⟨s.i, s.group_buffers, s.group_positions, s.group_non_null, s.group_sums, s.group_n_seen, s.out'⟩
+
+theorem sum_chunks_fold (k : Kind) (divf : Val → Int → Val) (gkl : Int) (gk : Int → Int) (w mp ml : Int) (ms : Bool)
+    (mk : Int → Bool) (wm ms' : Bool) (b1 b2 pl nl sl sel ol : Int) (chunks : List (List Val))
+    (st : Rolling_sum_or_mean_loop1St) :
+    chunks.foldl (rolling_sum_or_mean_loop1_step k divf gkl gk w mp ml ms mk wm ms' b1 b2 pl nl sl sel ol) st =
+      su1of2 (chunks.flatten.foldl (rolling_sum_or_mean_loop2_step k divf gkl gk w mp ml ms mk wm ms' sl nl b1 b2 pl sel ol)
+        (su2of1 st)) := by
+  induction chunks generalizing st with
+  | nil => rfl
+  | cons c cs ih =>
+    simp only [List.foldl_cons, List.flatten_cons, List.foldl_append]
+    rw [ih]
+    rfl
+
+/-- **`_rolling_sum_or_mean_1d` is the ring-buffer model `rolling k sum|mean`**: with `min_periods` given or defaulted to
+the window, for well-formed values (only float arrays hold NaN), every output cell holds the model's cell: the running
+window sum, or the quotient `divf sum count` for the mean, `null_value` where the model says null or writes nothing -/
+theorem rolling_sum_or_mean_eq (k : Kind) (divf : Val → Int → Val) (op : RollOp) (hop : op = .sum ∨ op = .mean)
+    (w : Nat) (hw : 0 < w) (minp : Option Nat) (codes : List Int) (chunks : List (List Val)) (msk : List Bool)
+    (masked : Bool) (ng ml : Int) (nullv : Val)
+    (hlen : codes.length = chunks.flatten.length)
+    (hwf : ∀ v ∈ chunks.flatten, NumOrNull k v) (hnv : NumOrNull k nullv) (hnull : nullv = nullValue k) :
+    let rows := cumRows codes chunks.flatten masked msk
+    let r := rolling_sum_or_mean k divf codes.length (arrOf codes 0) chunks ng w minp.isSome (minp.getD 0) masked ml
+      (arrOf msk true) nullv (decide (op = .mean))
+    r.2 = false ∧ ∀ j, j < codes.length →
+      r.1 (j : Int) = cellAt divf nullv (rolling k op w (minp.getD w) rows) j := by
+  intro rows r
+  have hvals : chunks.flatten = rows.map (·.val) := by
+    simp only [rows, cumRows, List.map_map]
+    have := list_eq_map_range chunks.flatten Val.nan
+    rw [← hlen] at this
+    exact this
+  have hrl : rows.length = codes.length := by simp [rows, cumRows]
+  have h0 : SumInv k nullv w 0
+      (su2of1 ⟨-1, fun _ _ => nullv, fun _ => 0, fun _ => 0, fun _ => .num 0, fun _ => 0, fun _ => nullv⟩)
+      (fun _ => rinit k w) := by
+    refine ⟨by simp [su2of1], fun _ _ => rfl, fun _ _ => hnv, fun g _ => ?_, fun g _ => by simp [su2of1, rinit]⟩
+    refine ⟨?_, by simp [su2of1, rinit], by simp [rinit]; exact hw, by simp [su2of1, rinit]⟩
+    apply List.ext_getElem <;> simp [rinit, rowV, su2of1, hnull]
+  have hmp : (if (!minp.isSome) = true then (w : Int) else ((minp.getD 0 : Nat) : Int)) = ((minp.getD w : Nat) : Int) := by
+    cases minp <;> simp
+  have hl := sum_loop k divf op hop nullv w hw (minp.getD w) (arrOf codes 0) masked (arrOf msk true) ng ml codes.length
+    codes.length rows 0 _ _
+    (by
+      intro j hj
+      have hj' : j < codes.length := by omega
+      have hmem : rows[j].val ∈ chunks.flatten := by
+        rw [hvals]; exact List.mem_map.mpr ⟨rows[j], List.getElem_mem hj, rfl⟩
+      refine ⟨?_, ?_, hwf _ hmem⟩ <;> simp [rows, cumRows, hj'])
+    h0
+  obtain ⟨_, l2⟩ := hl
+  refine ⟨by simp [r, rolling_sum_or_mean], fun j hj => ?_⟩
+  simp only [r, rolling_sum_or_mean, sum_chunks_fold, hvals, su1of2, rolling, hmp]
+  have := l2 j (by omega)
+  simpa using this
+
 end GV.LoopBridge
